@@ -120,6 +120,28 @@ type stageT struct {
 	chain           [][]logT
 	queries         []queryT
 	race            bool
+	trans           *transT // a range query that is RUNNING while the chain moves from the previous stage's chain to this one
+}
+
+// transT: the query starts on the previous stage's chain and idle index; right before its
+// tick-th environment call (SyncLogIndex and CurrentView calls counted together from 0) the
+// chain is switched to this stage's chain and the indexer catches up (WaitIdle) before the
+// call proceeds.  trace = per tick the ValidBlocks range reported by SyncLogIndex ((0,0) for
+// CurrentView ticks); recorded from the real implementation by the generator.
+type transT struct {
+	begin, end int64
+	addrs      []int
+	topics     [][]int
+	tick       int
+	trace      [][2]uint64
+}
+
+func encTrace(tr [][2]uint64) Sx {
+	out := SL{}
+	for _, e := range tr {
+		out = append(out, L(U(e[0]), U(e[1])))
+	}
+	return out
 }
 type paramsT struct {
 	lvpm, hbits, lmpe, brl, ldiff uint64 // what the model reads
@@ -225,7 +247,12 @@ func encStage(s stageT) Sx {
 	for _, q := range s.queries {
 		qs = append(qs, encQuery(q))
 	}
-	return L(U(s.history), U(s.cutoff), ch, qs, Bool(s.race))
+	tr := SL{}
+	if s.trans != nil {
+		t := s.trans
+		tr = SL{L(I(t.begin), I(t.end), encInts(t.addrs), encTopics(t.topics), I(int64(t.tick)), encTrace(t.trace))}
+	}
+	return L(U(s.history), U(s.cutoff), ch, qs, Bool(s.race), tr)
 }
 func decStage(s Sx) stageT {
 	l := AsList(s)
@@ -235,6 +262,15 @@ func decStage(s Sx) stageT {
 	}
 	for _, q := range AsList(l[3]) {
 		st.queries = append(st.queries, decQuery(q))
+	}
+	if len(l) > 5 && len(AsList(l[5])) > 0 {
+		t := AsList(AsList(l[5])[0])
+		tr := &transT{begin: AsBig(t[0]).Int64(), end: AsBig(t[1]).Int64(), addrs: decInts(t[2]), topics: decTopics(t[3]), tick: AsInt(t[4])}
+		for _, e := range AsList(t[5]) {
+			ee := AsList(e)
+			tr.trace = append(tr.trace, [2]uint64{AsU64(ee[0]), AsU64(ee[1])})
+		}
+		st.trans = tr
 	}
 	return st
 }
@@ -367,7 +403,7 @@ func genFilter(r *Rng) ([]int, [][]int) {
 	return addrs, topics
 }
 
-func genCase(r *Rng, big bool, adversarial bool) Sx {
+func genCase(r *Rng, big bool, adversarial bool, transMode bool) Sx {
 	p := paramsT{
 		lvpm: uint64(3 + r.Intn(3)), lmpe: uint64(1 + r.Intn(3)), ldiff: uint64(1 + r.Intn(2)),
 		logMapHeight: uint64(1 + r.Intn(3)), ratio: uint64(1 + r.Intn(2)),
@@ -405,14 +441,25 @@ func genCase(r *Rng, big bool, adversarial bool) Sx {
 		}
 	}
 	nst := 1 + r.Intn(4)
+	if transMode && nst < 2 {
+		nst = 2 + r.Intn(3)
+	}
 	var stages []stageT
 	var old [][]logT // blocks replaced by the latest reorg: (number-indexed) for side block queries
 	oldAt := 0
 	history := pickHistory(n - 1)
+	if transMode && r.Chance(1, 2) {
+		history = 0
+	}
+
+
 	cutoff := uint64(0)
 	for s := 0; s < nst; s++ {
 		if s > 0 {
 			kind := r.Intn(5)
+			if transMode {
+				kind = r.Intn(4)
+			}
 			// (a reorg reaching below the history cutoff would need re-indexing pruned blocks)
 			maxDepth := 8
 			if kind <= 1 && cutoff != 0 {
@@ -451,8 +498,41 @@ func genCase(r *Rng, big bool, adversarial bool) Sx {
 		head := len(chain) - 1
 		// queries racing the indexer: only while the tail cannot move (a query racing tail
 		// unindexing may fail with "log value pointer not found", reported to the lead)
-		st := stageT{history: history, cutoff: cutoff, race: s > 0 && history == 0 && cutoff == 0 && r.Chance(1, 2)}
+		st := stageT{history: history, cutoff: cutoff, race: !transMode && s > 0 && history == 0 && cutoff == 0 && r.Chance(1, 2)}
 		st.chain = append([][]logT{}, chain...)
+		if transMode && s > 0 && r.Chance(5, 6) {
+			// a query that is running while the chain moves from the previous stage's chain to
+			// this one; filters that match many logs so that the blocks at the boundary matter
+			oldHead := len(stages[s-1].chain) - 1
+			tr := &transT{begin: int64(r.Intn(oldHead + 1)), end: int64(rpc.LatestBlockNumber), tick: r.Intn(5)}
+			if r.Chance(1, 3) {
+				tr.begin = 0
+			}
+			if r.Chance(1, 4) {
+				tr.end = int64(r.Intn(oldHead + 1))
+				if tr.end < tr.begin {
+					tr.begin, tr.end = tr.end, tr.begin
+				}
+			}
+			if r.Chance(1, 12) {
+				tr.begin = int64(rpc.LatestBlockNumber)
+				tr.end = int64(rpc.LatestBlockNumber)
+			}
+			switch r.Intn(6) {
+			case 0:
+			case 1:
+				tr.addrs = []int{0}
+			case 2:
+				tr.addrs = []int{0, 1, 2}
+			case 3:
+				tr.topics = [][]int{{6, 7}}
+			case 4:
+				tr.addrs, tr.topics = []int{0, 2}, [][]int{{}, {6, 7, 8}}
+			default:
+				tr.addrs, tr.topics = genFilter(r)
+			}
+			st.trans = tr
+		}
 		nq := 5 + r.Intn(8)
 		for i := 0; i < nq; i++ {
 			q := queryT{}
@@ -511,12 +591,37 @@ func genCase(r *Rng, big bool, adversarial bool) Sx {
 	}
 	nmaps := (maxEnd-2)/vpm + 1
 	rt, ct := buildTables(p, nmaps)
-	sts := SL{}
-	for _, st := range stages {
-		sts = append(sts, encStage(st))
+	mk := func() Sx {
+		sts := SL{}
+		for _, st := range stages {
+			sts = append(sts, encStage(st))
+		}
+		return L(L(U(p.lvpm), U(p.hbits), U(p.lmpe), U(p.brl), U(p.ldiff)), I(nLayers), rt, ct, sts,
+			L(U(p.logMapHeight), U(p.groupSize), U(p.ratio)))
 	}
-	return L(L(U(p.lvpm), U(p.hbits), U(p.lmpe), U(p.brl), U(p.ldiff)), I(nLayers), rt, ct, sts,
-		L(U(p.logMapHeight), U(p.groupSize), U(p.ratio)))
+	c := mk()
+	if transMode {
+		// second pass: the ValidBlocks ranges the running queries get from SyncLogIndex are an
+		// input of the model's search session; record them from the real implementation
+		obs, ok := run(c).Obs.(SL)
+		if !ok || len(obs) != len(stages) {
+			panic("gen: cannot record the sync trace")
+		}
+		for i := range stages {
+			if stages[i].trans == nil {
+				continue
+			}
+			so := AsList(obs[i])
+			to := AsList(so[len(so)-1])
+			stages[i].trans.trace = nil
+			for _, e := range AsList(to[1]) {
+				ee := AsList(e)
+				stages[i].trans.trace = append(stages[i].trans.trace, [2]uint64{AsU64(ee[0]), AsU64(ee[1])})
+			}
+		}
+		c = mk()
+	}
+	return c
 }
 
 func gen(r *Rng, tier string, emit func(c Sx)) {
@@ -526,7 +631,7 @@ func gen(r *Rng, tier string, emit func(c Sx)) {
 		n = 400
 	}
 	for i := 0; i < n; i++ {
-		emit(genCase(r, i%4 == 3, i%5 == 4))
+		emit(genCase(r, i%4 == 3, i%5 == 4, i%3 == 1))
 	}
 }
 
@@ -537,6 +642,25 @@ type backend struct {
 	fm     *filtermaps.FilterMaps
 	cutoff uint64
 	feed   event.Feed
+	// deterministic interleaving of a running query with chain movement: hook(t) runs right
+	// before the t-th environment call (SyncLogIndex / CurrentView) of the query
+	hook  func(tick int)
+	tick  int
+	trace [][2]uint64
+}
+
+// hookedMatcher wraps the real matcher backend of the running query
+type hookedMatcher struct {
+	filtermaps.MatcherBackend
+	b *backend
+}
+
+func (m *hookedMatcher) SyncLogIndex(ctx context.Context) (filtermaps.SyncRange, error) {
+	m.b.hook(m.b.tick)
+	m.b.tick++
+	sr, err := m.MatcherBackend.SyncLogIndex(ctx)
+	m.b.trace = append(m.b.trace, [2]uint64{sr.ValidBlocks.First(), sr.ValidBlocks.AfterLast()})
+	return sr, err
 }
 
 func (b *backend) ChainDb() ethdb.Database            { return b.db }
@@ -598,10 +722,20 @@ func (b *backend) SubscribeLogsEvent(ch chan<- []*types.Log) event.Subscription 
 	return b.feed.Subscribe(ch)
 }
 func (b *backend) CurrentView() *filtermaps.ChainView {
+	if b.hook != nil {
+		b.hook(b.tick)
+		b.tick++
+		b.trace = append(b.trace, [2]uint64{0, 0})
+	}
 	h := b.CurrentHeader()
 	return filtermaps.NewChainView(b, h.Number.Uint64(), h.Hash())
 }
-func (b *backend) NewMatcherBackend() filtermaps.MatcherBackend { return b.fm.NewMatcherBackend() }
+func (b *backend) NewMatcherBackend() filtermaps.MatcherBackend {
+	if b.hook != nil {
+		return &hookedMatcher{MatcherBackend: b.fm.NewMatcherBackend(), b: b}
+	}
+	return b.fm.NewMatcherBackend()
+}
 
 // filtermaps' blockchain interface
 func (b *backend) GetCanonicalHash(number uint64) common.Hash { return rawdb.ReadCanonicalHash(b.db, number) }
@@ -771,6 +905,31 @@ func (w *world) checkSpec() string {
 		}
 	}
 	return ""
+}
+
+func (w *world) filterOf(as []int, ts [][]int) ([]common.Address, [][]common.Hash) {
+	var addrs []common.Address
+	for _, a := range as {
+		if a < 0 || a >= nAddr {
+			panic("hxlib: bad address id")
+		}
+		addrs = append(addrs, addrOf[a])
+	}
+	topics := [][]common.Hash{}
+	for _, sub := range ts {
+		var hs []common.Hash
+		for _, t := range sub {
+			if t < 5 || t >= nValues {
+				panic("hxlib: bad topic id")
+			}
+			hs = append(hs, topicOf[t])
+		}
+		topics = append(topics, hs)
+	}
+	if len(topics) > 4 {
+		panic("hxlib: too many topic positions")
+	}
+	return addrs, topics
 }
 
 func matches(l *types.Log, addrs []common.Address, topics [][]common.Hash) bool {
@@ -962,6 +1121,60 @@ func run(c Sx) Result {
 			}
 		}
 		oldLen := len(w.spec)
+		var transObs Sx
+		if st.trans != nil {
+			if si == 0 || w.be.fm == nil || w.fmHist != st.history || w.fmCutoff != st.cutoff || st.race {
+				panic("hxlib: a transition query needs a running indexer with unchanged history limit and cutoff")
+			}
+			tr := st.trans
+			addrs, topics := w.filterOf(tr.addrs, tr.topics)
+			fired := false
+			w.be.tick, w.be.trace = 0, nil
+			w.be.hook = func(tick int) {
+				if tick != tr.tick || fired {
+					return
+				}
+				fired = true
+				w.setChain(st.chain)
+				if msg := w.checkSpec(); msg != "" {
+					panic("hxlib: " + msg)
+				}
+				h := uint64(len(w.canon) - 1)
+				w.be.fm.SetTarget(filtermaps.NewChainView(w.be, h, w.canon[h].Hash()), st.cutoff, 0)
+				w.be.fm.WaitIdle()
+			}
+			ctx, cancel := context.WithTimeout(context.Background(), 60*time.Second)
+			got, gerr := w.sys.NewRangeFilter(tr.begin, tr.end, addrs, topics, 0).Logs(ctx)
+			cancel()
+			w.be.hook = nil
+			trace := w.be.trace
+			if fired {
+				tag["trans-fired"] = true
+				tag[fmt.Sprintf("trans-tick%d", tr.tick)] = true
+			}
+			// oracle: exactly the matching logs of the FINAL canonical chain over the requested
+			// range - no duplicates, no logs of dropped blocks, none missing - or an error
+			want, wantC := w.expectRange(queryT{begin: tr.begin, end: tr.end}, addrs, topics, st.cutoff)
+			gc := errClass(gerr)
+			switch {
+			case gc == 0 && wantC != 0:
+				fail("stage %d transition query: returned logs, expected error class %d", si, wantC)
+			case gc == 0:
+				if msg := sameLogs(got, want); msg != "" {
+					fail("stage %d transition query (chain switched before env call %d, fired=%v): %s", si, tr.tick, fired, msg)
+				}
+				if len(got) > 0 && fired {
+					tag["trans-hits"] = true
+				}
+			default:
+				tag["trans-error"] = true
+			}
+			ro := resultObs(got, gerr)
+			if gc != 0 && gc != 1 && gc != 2 && gc != 3 && gc != 4 {
+				ro = L(I(1), I(99))
+			}
+			transObs = L(I(9), encTrace(trace), ro)
+		}
 		w.setChain(st.chain)
 		if msg := w.checkSpec(); msg != "" {
 			panic("hxlib: " + msg)
@@ -1155,6 +1368,9 @@ func run(c Sx) Result {
 		}
 		if tag["hits"] && ma-mf >= 2 {
 			nonTrivial = true
+		}
+		if transObs != nil {
+			stObs = append(stObs, transObs)
 		}
 		obs = append(obs, stObs)
 	}
